@@ -51,6 +51,8 @@ type PropDef struct {
 	// Components lists which parts ran real code vs stubs (for the evidence).
 	Real, Stub []string
 	Rule       string
+	// Reach lists probes every batch must hit (see proto.PropMeta.Reach).
+	Reach []string
 }
 
 var Props = map[string]*PropDef{}
@@ -175,7 +177,7 @@ func WorkerMain(t *testing.T) {
 		os.Exit(2)
 	}
 	startWatchdog()
-	out := &WorkerOut{Meta: proto.PropMeta{Rule: p.Rule, Real: p.Real, Stub: p.Stub}, Args: a, Faults: map[string]int{}, Probes: map[string]int{}, Strategies: map[string]int{}, Triggers: map[string]int{}}
+	out := &WorkerOut{Meta: proto.PropMeta{Rule: p.Rule, Real: p.Real, Stub: p.Stub, Reach: p.Reach}, Args: a, Faults: map[string]int{}, Probes: map[string]int{}, Strategies: map[string]int{}, Triggers: map[string]int{}}
 	opt := RunOpt{Tier: a.Tier, Avoid: avoidMap(a.Avoid)}
 	start := time.Now()
 	switch a.Mode {
